@@ -371,6 +371,20 @@ fn search_idl(seed: u64, budget: usize) -> Option<Value> {
             Err(_) => return Some(json!({"kind":"idl_members","text":t,"expect":[nm,nt,ne],"why":"parser panicked"})),
         }
     }
+    // texts outside the grammar must be rejected: members cut short at every token, prefix operators doubled
+    for head in ["interface a.b\n", "interface a.b\nmethod A() -> ()\n", "interface a.b\ntype T (a: int)\n# c\nerror E ()\n"] {
+        for tail in ["error", "error E", "error E (", "error E (a", "error E (a:", "error E (a: int", "error E (a: int,", "method", "method M", "method M(", "method M()", "method M() ->", "method M() -> (",
+                     "type", "type T", "type T (", "type T (a,", "method M(a: ??int) -> ()", "method M(a: []??int) -> ()", "type T (a: ?[string]??bool)", "method M() -> (r: ? int)"] {
+            let t = format!("{head}{tail}");
+            let t2 = t.clone();
+            let r = std::panic::catch_unwind(move || zlink_core::idl::Interface::try_from(t2.as_str()).is_ok());
+            match r {
+                Ok(false) => {}
+                Ok(true) => return Some(json!({"kind":"idl_reject","text":t,"why":"a text outside the grammar (member cut short / doubled `?`) was accepted"})),
+                Err(_) => return Some(json!({"kind":"idl_reject","text":t,"why":"parser panicked"})),
+            }
+        }
+    }
     let names = ["org.example.test", "a.b", "org.example.", "a-b.c-d", "a.b.", "x.y-", "x.1y", "com.3com.net"];
     let types = ["int", "?string", "[]bool", "[string]int", "(a: int)", "(x, y)", "", ")", "(", "(a:)", "( )", "Foo", "(a: (b: int))"];
     for _ in 0..budget {
@@ -862,6 +876,16 @@ fn main() {
                 std::process::exit(1);
             }
             println!("REPLAY: passes on the real code");
+        }
+        Some("idl_reject") => {
+            let t = w["text"].as_str().unwrap().to_string();
+            println!("text = {t:?}  (outside the grammar: must be rejected)");
+            let t2 = t.clone();
+            match std::panic::catch_unwind(move || zlink_core::idl::Interface::try_from(t2.as_str()).map(|i| (i.methods().count(), i.custom_types().count(), i.errors().count())).map_err(|e| e.to_string())) {
+                Ok(Err(e)) => println!("rejected: {e}\nREPLAY: passes on the real code"),
+                Ok(Ok(c)) => { println!("ACCEPTED with (methods, types, errors) = {c:?}\nREPLAY: FAILS on the real code"); std::process::exit(1); }
+                Err(_) => { println!("parser panicked\nREPLAY: FAILS on the real code"); std::process::exit(1); }
+            }
         }
         Some("idl_members") => {
             let t = w["text"].as_str().unwrap();
